@@ -44,6 +44,18 @@ pub struct PortFilter {
     pub match_any: bool,
 }
 
+/// Convert a half-open `start..end` port range into the inclusive `(first, last)` pair stored
+/// by [`PortFilter`]. An empty range (`start >= end`, e.g. `0..0`) contains no port, so it is
+/// stored as a pair that no port can satisfy instead of `(start, end - 1)`, which for `0..0`
+/// saturated to `(0, 0)` and wrongly admitted port 0.
+fn inclusive_bounds(range: &std::ops::Range<u16>) -> (u16, u16) {
+    if range.start >= range.end {
+        (1, 0)
+    } else {
+        (range.start, range.end.saturating_sub(1))
+    }
+}
+
 impl PortFilter {
     /// Create a new empty port filter
     pub fn new() -> Self {
@@ -89,8 +101,7 @@ impl PortFilter {
     /// // Matches ports 8000 through 8999
     /// ```
     pub fn destination_range(mut self, range: std::ops::Range<u16>) -> Self {
-        self.destination_ranges
-            .push((range.start, range.end.saturating_sub(1)));
+        self.destination_ranges.push(inclusive_bounds(&range));
         self
     }
 
@@ -105,8 +116,7 @@ impl PortFilter {
     /// // Matches ports 10000 through 19999
     /// ```
     pub fn source_range(mut self, range: std::ops::Range<u16>) -> Self {
-        self.source_ranges
-            .push((range.start, range.end.saturating_sub(1)));
+        self.source_ranges.push(inclusive_bounds(&range));
         self
     }
 
